@@ -176,7 +176,53 @@ def run(pid, tier, seed, gate, replay=None):
                                                         impl_obs=fres[i][0], model_obs=fres[i][1], oracle=None,
                                                         broken=f"correspondence fetchtrace (colliding hashers) differs at action {m}"))
             violations.append(dict(replay=rp, nofail=True, what=f"fetchtrace correspondence broken at action {m}"))
-        extra_cov = dict(fetch_scripts_with_colliding_hashers=len(fs))
+        # hybrid cache over a colliding hasher: write queue (flushers held), disk index, restarts
+        from . import hybrid as H
+        C.build_harness(["hybridsim"])
+        hs = []
+        for _ in range(300 if tier == "thorough" else 40):
+            ops, ver, held = [], 1, False
+            for _ in range(rng.randrange(4, 16)):
+                a = rng.choices(["ins", "get", "sload", "rm", "hold", "unhold", "sync", "memevict", "restart", "gof"],
+                                [30, 20, 10, 6, 8, 8, 8, 6, 4, 4])[0]
+                k = rng.randrange(4)
+                if a == "ins":
+                    ops.append(f"ins k={k} ver={ver} size={rng.choice([64, 64, 5000])}"); ver += 1
+                elif a == "gof":
+                    ops.append(f"gof k={k} ver={ver} size=64"); ver += 1
+                elif a in ("get", "sload", "rm"):
+                    ops.append(f"{a} k={k}")
+                elif a == "hold" and not held:
+                    ops.append("hold"); held = True
+                elif a == "unhold" and held:
+                    ops.append("unhold"); held = False
+                elif a == "memevict":
+                    ops.append("memevict")
+                elif a == "sync" and not held:
+                    ops.append("wait")
+                elif a == "restart" and not held:
+                    ops += ["wait", "close", "reopen"]
+            if held:
+                ops.append("unhold")
+            ops += ["wait"] + [f"get k={k}" for k in range(4)] + ["close", "reopen"] + [f"get k={k}" for k in range(4)]
+            hs.append(H.cfg_line(policy=rng.choice(["woi", "woe"]), algo="fifo", mem=rng.choice([1, 2, 100]), univ=4,
+                                 hashmod=rng.choice([1, 1, 2]), timeout=5) + "\n" + "\n".join(ops) + "\n")
+        hbad = None
+        for sc, (cfgl, lines) in zip(hs, H.run_many(hs)):
+            o = None
+            for n, l in enumerate(lines):
+                name, kv, r, *_ = H.parse(l)
+                if name in ("get", "sload", "gof") and r == "HANG":
+                    o = (n, f"{name} of key {kv.get('k')} never completed"); break
+            o = o or H.oracle_c01(cfgl, lines)
+            if o and (hbad is None or len(sc) < len(hbad[0])):
+                hbad = (sc, lines, o)
+        if hbad and not failing and not fbad:
+            sc, lines, o = hbad
+            rp = C.write_replay(pid, seed, "hybrid", dict(property=pid, stream="hybridsim/colliding-hasher", script=sc, impl_obs=lines,
+                                                         oracle=dict(failed_at=o[0], what=o[1]), broken=None))
+            violations.append(dict(replay=rp, what=o[1]))
+        extra_cov = dict(fetch_scripts_with_colliding_hashers=len(fs), hybrid_scripts_with_colliding_hashers=len(hs))
     sample = results[min(len(results) - 1, 7)] if results else None
     cov = dict(
         evaluations=len(scripts), distinct_nontrivial=len(nontrivial),
